@@ -382,16 +382,14 @@ Fixpoint canon_alpn (fuel : nat) (s : bytes) : option (list bytes) :=
          end
   end.
 
-(* one16 = dtlcp: the decoder keeps only the last supported group / signature algorithm, so
-   only single-valued lists re-encode to themselves there *)
-Definition canon_u16s (one16 : bool) (d : bytes) : option (list N) :=
+(* a non-empty list of 16-bit values filling the extension exactly *)
+Definition canon_u16s (d : bytes) : option (list N) :=
   match cut 2 d with
   | Some (v, []) =>
       l <- rd_u16s v ;;
       match l with
       | [] => None
-      | [_] => Some l
-      | _ => if one16 then None else Some l
+      | _ => Some l
       end
   | _ => None
   end.
@@ -422,8 +420,8 @@ Definition canon_status (o : option bytes) : option bool :=
   | Some [1; 0; 0; 0; 0] => Some true
   | Some _ => None
   end.
-Definition canon_groups (one16 : bool) (o : option bytes) : option (list N) :=
-  match o with None => Some [] | Some d => canon_u16s one16 d end.
+Definition canon_groups (o : option bytes) : option (list N) :=
+  match o with None => Some [] | Some d => canon_u16s d end.
 Definition canon_alpns (o : option bytes) : option (list bytes) :=
   match o with
   | None => Some []
@@ -438,7 +436,7 @@ Definition canon_cid (o : option bytes) : option bytes :=
   | Some d => match cut 2 d with Some (v, []) => if empty v then None else Some v | _ => None end
   end.
 
-Definition canon_ch_body (cookie one16 : bool) (body : bytes) : option chello :=
+Definition canon_ch_body (cookie : bool) (body : bytes) : option chello :=
   '(vers, s) <- rd_u16 body ;; '(random, s) <- take 32 s ;; '(sid, s) <- cut 1 s ;;
   '(ck, s) <- (if cookie then cut 1 s else Some ([], s)) ;;
   '(cs, s) <- cut 2 s ;; suites <- rd_u16s cs ;;
@@ -455,7 +453,7 @@ Definition canon_ch_body (cookie one16 : bool) (body : bytes) : option chello :=
   '(o66, s) <- opt_ext extClientID s ;;
   if negb (empty s) then None else
   sni <- canon_sni o0 ;; tas <- canon_tca o3 ;; ocsp <- canon_status o5 ;;
-  curves <- canon_groups one16 o10 ;; sigalgs <- canon_groups one16 o13 ;;
+  curves <- canon_groups o10 ;; sigalgs <- canon_groups o13 ;;
   alpn <- canon_alpns o16 ;; cid <- canon_cid o66 ;;
   Some (mkCH vers random sid ck suites comp sni tas ocsp curves sigalgs alpn cid).
 
@@ -464,8 +462,7 @@ Definition canonical (st : stack) (m : mt) (bs : bytes) : bool :=
   framed st (mt_type m) bs &&
   match m with
   | mSH => match canon_sh_body (body_of st bs) with Some _ => true | None => false end
-  | mCH => match canon_ch_body (match st with SD => true | ST => false end)
-                               (match st with SD => true | ST => false end) (body_of st bs) with
+  | mCH => match canon_ch_body (match st with SD => true | ST => false end) (body_of st bs) with
            | Some _ => true | None => false end
   | _ => true
   end.
